@@ -53,6 +53,10 @@ CHECKS = {
          "Exhaustive over 4 deprecation states (none, bare, two reason texts incl. quotes / backslash / non-ASCII) of three object fields and one interface field x {allow, warn, deny, no strategy} x {SDL directive, JSON isDeprecated}; 13 selected members (direct, aliased, via fragment, inside an interface variant, object-typed) are checked per case against the reference: attribute exactly as documented, member omitted only under deny and only when deprecated in the scope it is selected in.",
          "Trusted: TLC, render.py, syn attribute parsing in gqlv inventory. Quick tier replays a seeded sample of 800 of the 2048 cases; thorough all.",
          "DESIGN.md §5 C14", "model_checking"),
+ "C12": ("TLA+ graph models of input types (Inputs.tla: the DFS with its shared visited set and the boxing decision) and of fragment spreads (MC_C12f) model-checked by TLC against the finite-size criterion on every graph; every graph replayed into the real generator (by-value containment graph read with syn), compiled with rustc and round-tripped through JSON",
+         "TLC checks on all input-type graphs over 2 types (3 in the thorough tier: model-checked exhaustively, replayed by seeded sample) with member kinds {T, T!, [T], [T!]!} and @oneOf flags that the implementation's decision (box iff the target is recursive without indirection) makes the by-value containment graph acyclic and coincides with `lies on a by-value cycle`; likewise for fragment spread graphs on 2 (3) fragments through nullable and list fields, where the non-transitive detection of the pinned tree is refuted. Every emitted graph is generated for real: token-level acyclicity for all, rustc (E0072) and JSON round trip of recursive values for all fragment graphs and a sample of input graphs.",
+         "Trusted: TLC, render.py, the containment reader in tools/c12.py (Option inline; Vec and Box indirect), rustc.",
+         "DESIGN.md §5 C12", "model_checking"),
 }
 
 
